@@ -60,6 +60,9 @@ class FailModel(engine.RealModel):
         for i, b in enumerate(sorted(breakable)):
             if dynamic:
                 cells[b] = f'=VSWITCH("{b}",{cells[b][1:]})'
+            elif b in init_broken and variant == 3:
+                # a reference into a linked workbook: fails while the graph is built
+                cells[b] = f"='[1]Sheet1'!A1+({cells[b][1:]})"
             elif b in init_broken:
                 fn = ('NOSUCHFN', 'VFAIL', 'VRECURSE')[(i + variant) % 3]
                 cells[b] = f'={fn}({cells[b][1:]})'
@@ -203,7 +206,8 @@ def job(arg):
                 out['repaired_evals'] += 1
             if status == 'raise':
                 out['raised_seen'] += 1
-                ok_family = isinstance(got, (PyCelException, RecursionError))
+                ok_family = isinstance(got, (PyCelException, RecursionError)) or (
+                    variant == 3 and isinstance(got, NotImplementedError))
                 if mode == 'iterative' and ovr and not depends and ok_family and \
                         needs_broken(prec, n, broken, {}):
                     # DEV_IterOverrideIgnored: the overwritten cell is recomputed
@@ -295,7 +299,7 @@ def job(arg):
             out['violations'].append((
                 f'after {act["op"]}({act.get("n")}) transient state is not clean: {tr} '
                 f'[{name}/{src}/{mode}]', case))
-        if mode == 'plain' and not drift:
+        if mode == 'plain' and variant != 3 and not drift:
             proj = model.project()
             diffs = engine.state_matches(st_to, proj)
             if act['op'] == 'evaluate' and (status == 'raise') != bool(act.get('raised')):
@@ -365,6 +369,8 @@ def run(tier, seed):
             ('cse', 'NoData', ['E1'], ['E1'], False, 'plain', P, ['A1'], 0, seed),
             ('range', 'NoData', ['B1'], ['B1'], False, 'iterative', P, ['A1'], 0, seed, 2),
             ('nested', 'NoData', ['B1'], ['B1'], False, 'iterative', P, ['A1'], 0, seed, 1),
+            ('trimex', 'NoData', ['C2'], ['C2'], False, 'plain', P, ['A1'], 0, seed, 3),
+            ('nested', 'NoData', ['B2'], ['B2'], False, 'plain', P, ['A1'], 0, seed, 3),
         ]
     else:
         jobs = []
@@ -373,7 +379,7 @@ def run(tier, seed):
             ins = sorted(W.WORKBOOKS[name]['inputs'])[:1]
             for f in forms:
                 for mode in ('plain', 'iterative'):
-                    for variant in (0, 1, 2):
+                    for variant in (0, 1, 2, 3):
                         jobs.append((name, 'NoData', [f], [f], False, mode, P, ins, 0, seed, variant))
             jobs.append((name, 'NoData', forms[:2], [], True, 'plain', P, ins, 0, seed))
             jobs.append((name, 'NoData', forms[:2], [], True, 'iterative', P, ins, 0, seed))
